@@ -54,7 +54,7 @@ def plain_spec(T):
     import builtins
     for base in T.__mro__:
         if base.__flags__ & _HEAPTYPE:            # class defined in Python
-            if '__init__' in vars(base) or '__new__' in vars(base):
+            if '__init__' in vars(base):
                 return False
             continue
         if base is KeyError:
@@ -206,8 +206,16 @@ def walk_entries(nodes, code, filepath):
         fin = anno.getanno(after, anno.Basic.ORIGIN, default=None)
         if o is None or fin is None:
             continue
+        if getattr(after, 'lineno', None) is None:
+            # resolve() only annotates nodes that have a position; a position-less re-parsed node with an ORIGIN is
+            # one of the interpreter-wide singletons ast.Load()/Store()/operators, carrying whatever ORIGIN
+            # copy_origin stamped on it last (in some earlier transformed tree)
+            SHARED_KEYS.add((fin.loc.filename, fin.loc.lineno))
         out.append(((fin.loc.filename, fin.loc.lineno), o))
     return out
+
+
+SHARED_KEYS = set()
 
 
 # --------------------------------------------------------------------------------------------
@@ -313,6 +321,14 @@ def judge_program(pr, res, info):
     md = getattr(conv, 'ag_error_metadata', None)
     if md is None:
         return [('no-metadata', {'what': 'exception from the converted function carries no ag_error_metadata: %r' % (conv,)})]
+    # the exception raised inside the converted code (re-raised from it by the wrapper)
+    src = conv.__context__
+    if src is None or getattr(src, 'ag_error_metadata', None) is not md:
+        return [('no-source', {'what': 'the re-raised exception does not chain to the exception raised in converted code'})]
+    if type(src) is not T or str(src) != str(orig):
+        # the converted code failed differently from the original: a semantic divergence (property C01), the
+        # error report cannot be compared with the original traceback
+        return [('divergence', {'original': '%s: %s' % (T.__name__, orig), 'converted_code_raised': '%s: %s' % (type(src).__name__, src)})]
     # --- type
     spec = plain_spec(T)
     if spec is True and type(conv) is not T:
@@ -384,9 +400,13 @@ def judge_source_maps(pr, res, info):
             glines = open(gfile).read().split('\n')
         except OSError:
             continue
+        shared = []
         for k, o in sm.items():
             nent += 1
             bad = None
+            if k.filename != gfile and (k.filename, k.lineno) in SHARED_KEYS:
+                shared.append((k.filename, k.lineno, o.loc.lineno))
+                continue
             if k.filename != gfile or not (0 < k.lineno <= len(glines)):
                 bad = 'key is not a line of the generated file'
             elif o.loc.filename != path or not (0 < o.loc.lineno <= len(info.lines)):
@@ -408,6 +428,9 @@ def judge_source_maps(pr, res, info):
                                              'generated_text': glines[k.lineno - 1] if 0 < k.lineno <= len(glines) else None,
                                              'origin': [o.loc.filename, o.loc.lineno, o.loc.col_offset, o.function_name]}))
                 break
+        if shared:
+            fails.append(('source-map-shared', {'what': 'entries whose key is not a generated line: (file, line, origin line) %s' % shared[:4],
+                                                'converted_function': ename}))
         # every generated line that carries a marker of an original statement is in the map
         for i, gl in enumerate(glines, 1):
             ms = set(int(x) for x in MARK.findall(gl))
@@ -422,7 +445,11 @@ def judge_source_maps(pr, res, info):
 # --------------------------------------------------------------------------------------------
 # known findings (narrow classifiers)
 F_IDENTITY = 'c12-init-identity-test'
+# mirror of ExcRule.required_known
+REQUIRED_KNOWN = ['AssertionError', 'AttributeError', 'NameError', 'NotImplementedError', 'RuntimeError',
+                  'StopIteration', 'TypeError', 'UnboundLocalError', 'ValueError']
 F_RECURSION = 'c12-recursion-shares-source-map'
+F_SINGLETON = 'c12-origin-on-shared-ast-singletons'
 
 
 def classify_identity(T, observed_type):
@@ -431,10 +458,12 @@ def classify_identity(T, observed_type):
     identity and the type is not in KNOWN_STRING_CONSTRUCTOR_ERRORS."""
     from malt.pyct import error_utils
     from malt.impl import api
+    if T.__module__ == 'builtins' and T.__name__ in REQUIRED_KNOWN:
+        return False          # these must be in the table (Coq: required_known / known_errors_keep_type)
     return (plain_spec(T) is True and observed_type is api.StagingError
             and T.__init__ is not Exception.__init__
             and T not in error_utils.KNOWN_STRING_CONSTRUCTOR_ERRORS and T is not KeyError
-            and not any('__init__' in vars(b) or '__new__' in vars(b) for b in T.__mro__ if b.__flags__ & _HEAPTYPE))
+            and not any('__init__' in vars(b) for b in T.__mro__ if b.__flags__ & _HEAPTYPE))
 
 
 def classify_recursion(want, got, res, units):
@@ -522,7 +551,11 @@ def synthetic_stack_cases(rnd, n, enc, cases, descr):
         tb, sm = mk_tb(), mk_sm()
         items = sorted(((k.filename, k.lineno), o) for k, o in sm.items())
         cid = len(cases)
-        real = error_utils._stack_trace_inside_mapped_code(tb, sm, conv)
+        try:
+            real = error_utils._stack_trace_inside_mapped_code(tb, sm, conv)
+        except Exception as e:   # noqa
+            fails.append('_stack_trace_inside_mapped_code raised %r on tb=%r source_map keys=%r' % (e, tb, [k for k, _ in items]))
+            continue
         cases.append('CScan %d %s %s %s [%s]' % (cid, enc.frames(tb), enc.smap(items), enc.s(conv, 'F'),
                                                 '; '.join(enc.fi(x) for x in real)))
         descr[cid] = ('scan', {'tb': tb, 'source_map': [(k, tuple(o.loc), o.function_name) for k, o in items],
@@ -537,6 +570,9 @@ def synthetic_stack_cases(rnd, n, enc, cases, descr):
                 md = error_utils.ErrorMetadataBase(tb2, cause, msg, sm2, conv)
             except IndexError:
                 md = 'crash'
+            except Exception as e:   # noqa
+                fails.append('ErrorMetadataBase(...) raised %r on tb=%r' % (e, tb2))
+                break
             cid = len(cases)
             cases.append('CAttach %d %s %s %s %s %s %s' % (cid, enc.frames(tb2), enc.outcome(cause), enc.s(msg, 'm'),
                                                          enc.smap(items2), enc.s(conv, 'F'), enc.outcome(md)))
@@ -703,10 +739,10 @@ def program_cases(rnd, res, enc, cases, descr, label):
     for entries, result, filepath in res['smaps']:
         if entries is None:
             continue
-        lines = sorted(set(k[1] for k, _ in entries))
+        lines = sorted(set(k[1] for k, _ in entries if k[0] == filepath))
         rnd.shuffle(lines)
         pick = set(lines[:5])
-        sub = [(k, o) for k, o in entries if k[1] in pick]
+        sub = [(k, o) for k, o in entries if k[1] in pick and k[0] == filepath]
         items = sorted(((k.filename, k.lineno), o) for k, o in result.items() if k.lineno in pick and k.filename == filepath)
         cid = len(cases)
         cases.append('CSmap %d %s %s' % (cid, enc.smap(sub), enc.smap(items)))
@@ -717,7 +753,7 @@ def program_cases(rnd, res, enc, cases, descr, label):
 
 def check(run):
     tier = run.tier
-    nprog = 150 if tier == 'quick' else 3000
+    nprog = 150 if tier == 'quick' else 2000
     run.rule = ('programs: call chains f0->..->f(d-1), d<=4, over {C plain def, U do_not_convert def, N nested def, '
                 'L lambda, R direct recursion} (all %d admissible chains round-robin) x %d failure kinds '
                 '(explicit raise of builtin/user classes with and without constructors, failing builtins, '
@@ -770,7 +806,7 @@ def _check(run, nprog, tmpdir):
     failures = []        # property-level failures: (title, replay dict, classify id or None)
 
     # 3a. synthetic correspondence
-    synthetic_stack_cases(rnd, 120 if run.tier == 'quick' else 1500, enc, cases, descr)
+    synth_fails = synthetic_stack_cases(rnd, 120 if run.tier == 'quick' else 1500, enc, cases, descr)
     exc_obs = exception_cases(enc, cases, descr, fact_name)
     synthetic_smap_cases(rnd, 60 if run.tier == 'quick' else 600, enc, cases, descr)
     run.count(len(cases))
@@ -843,8 +879,17 @@ def _check(run, nprog, tmpdir):
             cls = None
             if kind == 'generator':
                 continue
+            if kind == 'divergence':
+                stats['semantic_divergence_C01'] = stats.get('semantic_divergence_C01', 0) + 1
+                if stats['semantic_divergence_C01'] <= 3:
+                    run.note('converted code fails differently from the original (C01, not judged here): %s | %s' % (label, det))
+                continue
             if kind == 'type' and classify_identity(type(res['orig']), type(res['conv'])):
                 cls = F_IDENTITY
+            if kind == 'source-map-shared':
+                # entries keyed by a line of an ORIGINAL file: ORIGIN stamped by copy_origin on the interpreter-wide
+                # ast.Load()/Store()/operator singletons is read back from the "re-parsed" tree (same objects)
+                cls = F_SINGLETON
             if kind == 'stack':
                 want, units = expected_stack(user, info, recursive)
                 if 'observed' in det and classify_recursion(want, det['observed'], res, units):
@@ -853,6 +898,7 @@ def _check(run, nprog, tmpdir):
                      'message': 'original message not carried',
                      'stack': 'translated_stack does not list the frames of the original traceback',
                      'source-map': 'ag_source_map entry does not point to the statement it was generated from',
+                     'source-map-shared': 'ag_source_map has entries that are not lines of the generated file',
                      }.get(kind, 'error metadata: ' + kind)
             failures.append((title, dict(det, label=label, program=pr['text'], entry='f0', argument=G.P_VALUE,
                                          recursive=recursive,
@@ -866,7 +912,7 @@ def _check(run, nprog, tmpdir):
                 prog_of_case[c] = (pr, label, 'R' in chain)
     run.extra['input_distribution'] = {
         'programs': stats['programs'], 'original_did_not_raise': stats['original_did_not_raise'],
-        'conversions_observed': stats['conversions'], 'source_map_entries_checked': stats['source_map_entries'],
+        'conversions_observed': stats['conversions'], 'semantic_divergence_C01_skipped': stats.get('semantic_divergence_C01', 0), 'source_map_entries_checked': stats['source_map_entries'],
         'chain_depth_histogram': stats['by_depth'], 'exception_type_histogram': stats['by_type'],
         'program_lines_min_median_max': (lambda s: [s[0], s[len(s) // 2], s[-1]] if s else [])(sorted(stats['size_lines']))}
     if stats['programs'] and stats['original_did_not_raise'] * 10 > stats['programs']:
@@ -874,6 +920,8 @@ def _check(run, nprog, tmpdir):
 
     # 3c. evaluate the model on all cases
     corr_bad = None
+    if synth_fails:
+        corr_bad = 'implementation raised on generated frame lists (%d), first: %s' % (len(synth_fails), synth_fails[0][:1200])
     if tie_msg is None:
         r, log = eval_cases(cases, 'cases')
         if r is None:
@@ -883,7 +931,7 @@ def _check(run, nprog, tmpdir):
             run.extra['traces_validated_against_impl'] = len(cases)
             run.extra['real_runs_outside_daisy_chain_hypotheses'] = len(outside)
             run.extra['source_maps_with_several_original_lines_per_generated_line'] = len(several)
-            if bad:
+            if bad and not corr_bad:
                 d = descr.get(bad[0])
                 corr_bad = 'model and implementation disagree on %d case(s), first: %s %s' % (
                     len(bad), d[0] if d else '?', json.dumps(d[1], default=str)[:1500] if d else '')
